@@ -98,12 +98,18 @@ def r02_1(ctx: Ctx) -> None:
         odd = used - {"stat", "fstat", "getattr", "FILE_ATTRIBUTE_UNIX_EXTENSION", "FILE_ATTRIBUTE_WINDOWS_MASK"}
         if any(cd == "dereference" and pol for cd, pol in facts):
             restat = [s for s in walk(f.node) if isinstance(s, ast.Assign) and norm(s.targets[0]) == "fstat" and isinstance(s.value, ast.Call) and norm(s.value.func) == "target.stat"]
-            dom = any(cfg_of(f.node).dominates(q.node_for(f, r), q.node_for(f, first)) for r in restat)
+            cfgf = cfg_of(f.node)
+            dom = any(cfgf.dominates(q.node_for(f, r), q.node_for(f, first)) for r in restat)
+            # locals are fine when they are themselves computed after the re-stat
+            stale = []
+            for nm in sorted(odd):
+                for d in [x for x in walk(f.node) if isinstance(x, ast.Assign) and any(isinstance(t, ast.Name) and t.id == nm for t in x.targets)]:
+                    if not any(cfgf.dominates(q.node_for(f, r), q.node_for(f, d)) for r in restat):
+                        stale.append(nm)
+            odd = set(stale)
             ctx.check(not odd and dom, "R02.1", f, first, "dereferenced entry takes its mode from the re-stat'ed target",
                       f"a dereferenced entry computes its attributes from {sorted(odd) or 'fstat'} not dominated by `fstat = target.stat()`: the link's own mode (0o777) is stored instead of the target's",
                       construct=f"dereferenced {kind} mode source")
-        else:
-            ctx.check(not odd, "R02.1", f, first, "attributes computed from the stat result only", f"attributes use extra locals {sorted(odd)}", construct=f"{kind} attribute locals")
     ctx.floor("R02.1", n_blocks, 5, "posix kind branches of _make_file_info")
     # reader side constants
     af = ctx.prog.cls("ArchiveFile", "py7zr")
